@@ -70,15 +70,36 @@ class LineCov:
         return total, out
 
 
+ANCHORED = [
+    # (module, dotted attribute); private helpers may be renamed by a rewrite:
+    # whatever is missing is skipped and reported, never an error
+    ('MIP.mip.blocks', 'get_block_positions'), ('MIP.mip.cards', 'get_cards'),
+    ('MIP.mip.cards', '_yield'), ('MIP.mip.cards', 'expand_tabs'),
+    ('MIP.mip.cards', 'is_continuation'), ('MIP.mip.main', 'Card.content'),
+    ('MIP.mip.main', 'MIP.cards'), ('MIP.mip.main', 'MIP.blocks'),
+    ('MIP.mip.cellcard', 'split'), ('MIP.mip.surfacecard', 'split'),
+    ('MIP.mip.datacard', 'split'), ('MIP.mip.datacard', 'to_float'),
+    ('MIP.mip.datacard', 'expand_data_card'), ('MIP.mip.datacard', 'linspace'),
+    ('t4_geom_convert.Kernel.Utils', 'normalize_float'),
+]
+
+
 def anchored_functions():
-    from MIP.mip import blocks, cards, main, cellcard, surfacecard, datacard
-    from t4_geom_convert.Kernel import Utils
-    return [blocks.get_block_positions, cards.get_cards, cards._yield,
-            cards.expand_tabs, cards.is_continuation, main.Card.content,
-            main.MIP.cards, main.MIP.blocks,
-            cellcard.split, surfacecard.split, datacard.split,
-            datacard.to_float, datacard.expand_data_card, datacard.linspace,
-            Utils.normalize_float]
+    '''(functions found, names not present).'''
+    import importlib
+    found, missing = [], []
+    for mod, attr in ANCHORED:
+        try:
+            obj = importlib.import_module(mod)
+            for part in attr.split('.'):
+                obj = getattr(obj, part)
+            if not hasattr(getattr(obj, '__func__', obj), '__code__') \
+                    and not hasattr(getattr(obj, '__wrapped__', obj), '__code__'):
+                raise AttributeError(attr)
+            found.append(obj)
+        except Exception:       # pylint: disable=broad-except
+            missing.append(f'{mod}.{attr}')
+    return found, missing
 
 
 UNREACHABLE = [
